@@ -15,6 +15,7 @@ CONSTANTS
     EvoCap = 63
     LastEvo = 63
     UMax = 200
+    RoundKeyUnique = FALSE
     KesAliasPastLast = TRUE
     StakeOf <- StakeOfDef
     ExcuseRoundDup = FALSE
